@@ -90,5 +90,5 @@ func TestVerifC21Routing(t *testing.T) {
 		routerComp("routing.Router.RouteKey(fresh-router)", false),
 		routerComp("routing.Router.RouteKey(warmed-router)", true),
 	}, &c21.RawCRC{Name: "routing.checksumIEEEString", F: checksumIEEEString},
-		c21.Options{KeysAllCountsQuick: 1024, KeysAllCountsThorough: 8192})
+		c21.Options{KeysAllCountsQuick: 512, KeysAllCountsThorough: 8192})
 }
